@@ -2,6 +2,8 @@
   Driver.BlakeD — line-protocol handlers for Model.Blake / Spec.Blake / Spec.Blake2 (C11, BLAKE part of C14).
 
   blake <n> <salt> <msg> <bitlen|None>                       digest                      (model, spec)
+  blake.s <n> <salt> <msg> <bitlen|None>                     the same on the module singleton blake<n>
+  blake2.s <b|s> <outlen|None> <msg>                         module singleton blake2b / blake2s
   blake.pre <n> <salt> <bitcnt> <msg>                        digest with preset counter   (model, spec)
   blake.trace <n> <bitcnt> <msg> <bitlen|None>               per-block counters           (model, spec)
   blake2 <b|s> <outlen|None> <salt> <pers> <fanout> <depth> <leafl> <noffset> <ndepth> <inner> <msg>
@@ -112,6 +114,12 @@ def handle : Handler := fun op args =>
       let n ← parseNat? n; let salt ← parseNat? salt; let M ← parseBytes? msg; let bl ← parseOptNat? bl
       let m := fmtE fmtBytes (do let c ← Blake.mk? n; Blake.call c M salt bl)
       pure (m, specBlake n 0 M bl salt)
+  | "blake.s", [n, salt, msg, bl] => do
+      -- the module-level singletons blake224 … blake512
+      let n ← parseNat? n; let salt ← parseNat? salt; let M ← parseBytes? msg; let bl ← parseOptNat? bl
+      let c ← (if n = 224 then some Blake.blake224 else if n = 256 then some Blake.blake256
+               else if n = 384 then some Blake.blake384 else if n = 512 then some Blake.blake512 else none)
+      pure (fmtE fmtBytes (Blake.call c M salt bl), specBlake n 0 M bl salt)
   | "blake.pre", [n, salt, cnt, msg] => do
       let n ← parseNat? n; let salt ← parseNat? salt; let cnt ← parseNat? cnt; let M ← parseBytes? msg
       let m := fmtE fmtBytes (do
@@ -134,6 +142,12 @@ def handle : Handler := fun op args =>
           let L := bl.getD (8 * M.length)
           if L > 8 * M.length then "ERR" else fmtNatList (Spec.Blake.counters V cnt L)
       pure (m, sp)
+  | "blake2.s", [v, outlen, msg] => do
+      -- the module-level singletons blake2b / blake2s
+      let (c, V) ← b2cfg? v
+      let outlen ← parseOptNat? outlen; let M ← parseBytes? msg
+      let p : Blake2.Params := { outlen }
+      pure (fmtE fmtBytes (Blake2.call c M p), specB2 V p 0 M)
   | "blake2", [v, outlen, salt, pers, fanout, depth, leafl, noffset, ndepth, inner, msg] => do
       let (c, V) ← b2cfg? v
       let outlen ← parseOptNat? outlen; let salt ← parseBytes? salt; let pers ← parseBytes? pers
